@@ -85,6 +85,9 @@ func (i *interpreter) intrinsic(fr *frame, fn *ssa.Function, name string, args [
 	if f, ok := stdIntrinsics[name]; ok {
 		return f(fr, args), true
 	}
+	if f, ok := stdIntrinsicsExtra[name]; ok {
+		return f(fr, args), true
+	}
 	return nil, false
 }
 
@@ -134,6 +137,8 @@ func (i *interpreter) verifIntrinsic(fr *frame, short string, args []value) (val
 		}
 		if fr.branch(in) {
 			e.knownOn = id
+		} else if e.knownOn == id {
+			e.knownOn = ""
 		}
 		return nil, true
 	case "verifObserve":
@@ -181,7 +186,17 @@ func (i *interpreter) checkAssert(fr *frame, cond *sym.Term, label string) {
 		panic(pathEnd{kind: "unknown", msg: "model extraction failed: " + err.Error()})
 	}
 	v := Violation{Label: label, Model: m, Trace: e.decisions(), Observe: e.renderObserve(full), Known: e.knownOn}
+	if e.knownOn != "" {
+		// fenced (listed known finding): keep at most two witnesses per id and carry on
+		// with the path, so that everything after the fence is still checked
+		e.stats.KnownHits[e.knownOn]++
+		if e.stats.KnownHits[e.knownOn] <= 2 {
+			e.violations = append(e.violations, v)
+		}
+		return
+	}
 	e.violations = append(e.violations, v)
+	e.unknownViol++
 	panic(pathEnd{kind: "violation", msg: label})
 }
 
